@@ -24,7 +24,7 @@ def shape_key(c):
     """role of a finding, independent of incidental details of the model"""
     if c['kernel'] == 'typename_search':
         return 'typename-search:spread-cycle-on-abstract-type'
-    if c['kernel'] in ('used_input_ids', 'input_recursion'):
+    if c['kernel'] in ('used_input_ids', 'input_recursion', 'render_object_literal'):
         return f"{c['kernel']}:input-type-cycle"
     if c['kernel'] == 'collect_used_types':
         return 'collect-used-types:spread-cycle'
@@ -37,6 +37,9 @@ def native_run(rt, c):
         schema, query = synth.fragment_texts(c['fragments'], use=use)
     elif 'graph' in c and c['graph']:
         schema, query = synth.input_graph_texts(c['graph'], c.get('start') or c.get('target'))
+        if c['kernel'] == 'render_object_literal':
+            # the walk starts from a default value that is an object literal spelling out none of the fields
+            query = query.replace('$v: %s)' % (c.get('start') or c.get('target')), '$v: %s = {})' % (c.get('start') or c.get('target')))
     else:
         return None, None, None
     r = rt.gen(schema, query, {}, timeout=40)
@@ -61,6 +64,7 @@ def main():
         cands += K.k_fragment_is_recursive(R, F, S)
     for N, Kf in ns:
         cands += K.k_used_input_ids(R, N, Kf)
+        cands += K.k_render_object_literal(R, N, Kf)
     R.vm.loop_watch = ['contains_type_without_indirection']
     for N, Kf in ns[:2] if tier == 'quick' else ns[:3]:
         cands += [c for c in K.k_input_recursion(R, N, Kf, 1) if c['prop'] == 'C17']
